@@ -1,6 +1,7 @@
 use std::any::type_name;
 use std::borrow::{Borrow, BorrowMut};
 use std::ops::{Deref, DerefMut};
+use std::panic::{AssertUnwindSafe, catch_unwind, resume_unwind};
 use std::pin::Pin;
 use std::ptr::NonNull;
 use std::sync::{Arc, Mutex};
@@ -281,8 +282,15 @@ impl<T: ?Sized> Drop for PooledMut<T> {
         // SAFETY: We are a managed unique handle, so we are the only one who is allowed to remove
         // the object from the pool - as long as we exist, the object exists in the pool. We keep
         // the pool alive for as long as any handle to it exists, so the pool must still exist.
-        unsafe {
+        let result = catch_unwind(AssertUnwindSafe(|| unsafe {
             pool.remove(inner);
+        }));
+
+        // Release the guard cleanly (never poisoning it) before re-throwing a destructor panic.
+        drop(pool);
+
+        if let Err(payload) = result {
+            resume_unwind(payload);
         }
     }
 }
